@@ -28,9 +28,11 @@ def configs(tier):
         for rule in NESTED_GLOBAL + NON_NESTED:
             if rule == 'clenshaw-curtis-zero': continue
             fast = rule in ('clenshaw-curtis', 'fejer2', 'gauss-patterson', 'rleja-double2', 'rleja-double4', 'rleja-shifted-double')
-            odd = rule.endswith('-odd')
-            add(spec('global', rule, 1, 1, 3 if fast else (6 if odd else 10)), solver_timeout_ms=60000); add(spec('global', rule, 2, 1, 2 if fast else (3 if odd else 5))); add(spec('global', rule, 2, 2, 2 if fast else 3, 'iptotal', aniso=1))
-            if 'hermite' not in rule and 'laguerre' not in rule: add(spec('global', rule, 2, 1, 2, transform=1))
+            odd = rule.endswith('-odd') or rule == 'rleja-shifted-even'    # two points per level: degree 2*level
+            unb = 'laguerre' in rule or 'hermite' in rule      # far-out nodes: keep the degree low (conditioning of the monomial basis)
+            d1 = 3 if fast else ((3 if unb else 6) if odd else (6 if unb else 10)); d2 = (1 if rule == 'rleja-shifted-double' else 2) if fast else (2 if odd else (3 if unb else 5))
+            add(spec('global', rule, 1, 1, d1), solver_timeout_ms=60000); add(spec('global', rule, 2, 1, d2)); add(spec('global', rule, 2, 2, min(d2, 3), 'iptotal', aniso=1))
+            if 'hermite' not in rule and 'laguerre' not in rule: add(spec('global', rule, 2, 1, 1 if (rule == 'rleja-shifted-double' or odd) else 2, transform=1))
         add(spec('global', 'clenshaw-curtis', 3, 1, 2)); add(spec('global', 'leja', 3, 1, 3))
         for t in DEPTH_TYPES: add(spec('global', 'leja', 2, 1, 4 if 'tensor' not in t else 2, t, aniso=1))
         for rule in SEQUENCE_RULES:
